@@ -78,6 +78,20 @@ def delta? : List Int → Option (Delta × List Int)
     some ({ years := y, months := m, days := d, hours := h, minutes := mi, seconds := s, micros := us }, rest)
   | _ => none
 
+def strOf (s : Str) : String := String.ofList (s.map fun b => Char.ofNat b.toNat)
+
+/-- `sqlx` cases whose result is a temporal value: the observation is the text the client is sent
+(`NULL` outside the years 0..9999); Impl model = `sqlTextImpl`, Spec = `sqlTextSpec` of the value the
+unit-level model computes. -/
+def sqlTextCase (k : SqlKind) (t : Int) : String :=
+  let y := (fieldsOf t).y
+  if y < 0 || y > 9999 then answer "NULL"
+  else
+    let impl := strOf (sqlTextImpl k t)
+    let spec := strOf (sqlTextSpec k t)
+    if impl == spec then answer impl
+    else answer impl spec (if datetime_text_year_below_1000 t then "datetime_text_year_below_1000" else "-")
+
 def handle (p : List Sexp) : String :=
   match p with
   | [.list (.atom "date" :: xs)] =>
@@ -152,6 +166,32 @@ def handle (p : List Sexp) : String :=
         if impl == spec then answer impl
         else answer impl spec (if u.isCalendar && monthsdiff_minutes_ignored t1 t2 then "monthsdiff_minutes_ignored" else "-")
       | _ => answer "bad-case"
+    | _, _ => answer "bad-case"
+  | [.list [.atom "sqlx", .atom "dateadd", .list (.atom fn :: .atom unit :: n :: xs)]] =>
+    match n.int?, (ints? xs).bind fields? with
+    | some n, some (f, []) =>
+      match sqlUnitDelta unit n, (if fn == "DATE_ADD" then some (1 : Int) else if fn == "DATE_SUB" then some (-1) else none) with
+      | some td, some sign =>
+        let t := applyDelta td sign (goDate f)
+        match validateTime t, validateTimeSpec t with
+        | none, none => answer "NULL"
+        | some t, some _ => sqlTextCase (.datetime 6) t
+        | some t, none =>
+          answer (strOf (sqlTextImpl (.datetime 6) t)) "NULL"
+            (if dateadd_result_before_year_zero t then "dateadd_result_before_year_zero" else "-")
+        | none, some t => answer "NULL" (strOf (sqlTextSpec (.datetime 6) t))
+      | _, _ => answer "bad-case"
+    | _, _ => answer "bad-case"
+  | [.list [.atom "sqlx", .atom "dttext", .list (.atom k :: xs)]] =>
+    match SqlKind.ofName? k, (ints? xs).bind fields? with
+    | some k, some (f, []) => sqlTextCase k (goDate f)
+    | _, _ => answer "bad-case"
+  | [.list [.atom "sqlx", .atom "strtodate", .list [d, f]]] =>
+    match d.bytes?, f.bytes? with
+    | some d, some f =>
+      match parseImpl d f with
+      | .ok (some t) => sqlTextCase (.datetime (if (fieldsOf t).ns == 0 then 0 else 6)) t
+      | _ => answer "NULL"
     | _, _ => answer "bad-case"
   | [.list (.atom "sqlx" :: _)] => answer "consistent"   -- oracle-only stream (SQL function vs. unit function)
   | _ => answer "bad-case"
